@@ -27,14 +27,37 @@ def jobs(tier):
     return _repex.make_jobs(tier) + [("py", {"name": "assign_engines_bounded", "module": "props.C03", "fn": "assign_engines_bounded"})]
 
 
-replay = _repex.replay
+def _assign_case(occ, names, pin, types):
+    """Run the real assign_engines on a copy of occ; return None if its contract holds, else what failed."""
+    import copy
+    from infretis.classes.engines.factory import assign_engines
+    o = copy.deepcopy(occ)
+    try:
+        out = assign_engines(o, list(names), pin)
+    except Exception as e:  # an exception of the code under test under its precondition is a violation, not a checker crash
+        return {"raised": repr(e)}
+    ok = set(out) == set(names)
+    for t in names:
+        ok = ok and t in out and o[t][out[t]] == pin and occ[t][out[t]] in (-1, pin)
+    for t in types:
+        held = [i for i, v in enumerate(o[t]) if v == pin]
+        ok = ok and len(held) == (1 if t in names else 0)
+        ok = ok and all(o[t][i] == occ[t][i] for i in range(len(o[t])) if occ[t][i] not in (-1, pin))
+    return None if ok else {"out": out, "after": o}
+
+
+def replay(obname, w):
+    if obname.startswith("assign_engines/") and isinstance(w, dict) and "engine_occ" in w:
+        import importlib.util  # noqa: F401
+        occ = {t: list(v) for t, v in w["engine_occ"].items()}
+        err = _assign_case(occ, w["names"], w["pin"], sorted(occ))
+        return {"reproduced": err is not None, "detail": err or "assign_engines keeps its contract on this input"}
+    return _repex.replay(obname, w)
 
 
 def assign_engines_bounded(spec, tier, seed):
     import importlib.util  # noqa: F401
-    import copy
     import itertools
-    from infretis.classes.engines.factory import assign_engines
     n, bad = 0, None
     types = ["engine", "engine0"]
     for sizes in itertools.product((1, 2, 3), repeat=2):
@@ -49,22 +72,9 @@ def assign_engines_bounded(spec, tier, seed):
                     if any(all(v not in (-1, pin) for v in occ[t]) for t in names):
                         continue
                     n += 1
-                    o = copy.deepcopy(occ)
-                    try:
-                        out = assign_engines(o, names, pin)
-                    except Exception as e:  # an exception of the code under test under its precondition is a violation, not a checker crash
-                        if bad is None:
-                            bad = {"engine_occ": occ, "names": names, "pin": pin, "raised": repr(e)}
-                        continue
-                    ok = set(out) == set(names)
-                    for t in names:
-                        ok = ok and t in out and o[t][out[t]] == pin and occ[t][out[t]] in (-1, pin)
-                    for t in types:
-                        held = [i for i, v in enumerate(o[t]) if v == pin]
-                        ok = ok and len(held) == (1 if t in names else 0)
-                        ok = ok and all(o[t][i] == occ[t][i] for i in range(len(o[t])) if occ[t][i] not in (-1, pin) )
-                    if not ok and bad is None:
-                        bad = {"engine_occ": occ, "names": names, "pin": pin, "out": out, "after": o}
+                    err = _assign_case(occ, names, pin, types)
+                    if err is not None and bad is None:
+                        bad = dict({"engine_occ": occ, "names": names, "pin": pin}, **err)
     return {"job": "assign_engines_bounded", "obligations": [{"name": "assign_engines/exclusive_instance_per_type_for_the_pin", "result": "sat" if bad else "unsat", "label": "bounded",
             "backend": "cpython-exhaustive", "time_s": 0.0, "engine": "native", "witness": bad, "solver_output": None if not bad else str(bad)}],
             "coverage_extra": {"assign_engines_cases": n}}
